@@ -72,15 +72,35 @@ def tree_hash(root):
     return _include_hash_cache[root]
 
 
+_INC = re.compile(r'^\s*#\s*include\s*"([^"]+)"', re.M)
+
+
+def _local_deps(src, seen=None):
+    """harness-local files reachable through quoted #include lines (transitively)."""
+    seen = seen if seen is not None else set()
+    src = os.path.abspath(src)
+    if src in seen or not os.path.exists(src):
+        return seen
+    seen.add(src)
+    try:
+        text = open(src, "r", errors="replace").read()
+    except OSError:
+        return seen
+    for inc in _INC.findall(text):
+        for base in (os.path.dirname(src), HARNESS):
+            cand = os.path.join(base, inc)
+            if os.path.exists(cand):
+                _local_deps(cand, seen)
+                break
+    return seen
+
+
 def _deps_hash(src):
-    """hash of a harness source and every file under /verif/harness it may include."""
+    """hash of a harness source and the harness-local headers it includes (transitively)."""
     h = hashlib.sha256()
-    for d, dirs, files in sorted(os.walk(HARNESS)):
-        dirs.sort()
-        for f in sorted(files):
-            if f.endswith((".hpp", ".h", ".inc")) or os.path.join(d, f) == src:
-                with open(os.path.join(d, f), "rb") as fh:
-                    h.update(f.encode() + b"\0" + fh.read() + b"\0")
+    for f in sorted(_local_deps(src)):
+        with open(f, "rb") as fh:
+            h.update(os.path.basename(f).encode() + b"\0" + fh.read() + b"\0")
     return h.hexdigest()
 
 
@@ -484,3 +504,54 @@ def h64(s):
     if isinstance(s, str):
         s = s.encode()
     return hashlib.blake2b(s, digest_size=8).hexdigest()
+
+
+def run_resumable(ctx, binary, base_args, start, count, timeout=600, tag="w", crash_key=None,
+                  max_restarts=50):
+    """Run harness scenarios [start, start+count) passing --from/--count/--out. The harness prints
+    {"t":"begin","i":k} before scenario k and, when a scenario leaves the process unusable (stuck
+    threads), {"t":"stopped","at":k} before _exit. A crash (signal / sanitizer abort) or watchdog
+    kill is attributed to the last begun scenario, reported through crash_key(rr, k) -> (key, what)
+    (default: <prop>:crash:<signal>) and the run resumes at k+1. Returns the RunResults."""
+    results = []
+    cur, end = start, start + count
+    restarts = 0
+    while cur < end and restarts <= max_restarts:
+        out = os.path.join(ctx.tmp, f"{tag}-{flavor_of(binary)}-{start}-{cur}.jsonl")
+        rr = run_harness(binary, list(base_args) + ["--from", cur, "--count", end - cur, "--out", out],
+                         timeout=timeout, out_file=out)
+        results.append(rr)
+        try:
+            os.unlink(out)
+        except OSError:
+            pass
+        stopped = [r for r in rr.records if r.get("t") == "stopped"]
+        begun = [r["i"] for r in rr.records if r.get("t") == "begin"]
+        if stopped:
+            cur = stopped[0]["at"] + 1
+            restarts += 1
+            continue
+        if rr.timed_out or rr.rc != 0:
+            last = begun[-1] if begun else cur
+            if rr.san_reports and rr.rc in (86, 87) and not rr.timed_out:
+                # sanitizer report ended the process (asan) or set the exit code at the end (tsan)
+                done = [r for r in rr.records if r.get("t") == "done"]
+                if done:
+                    break
+                cur = last + 1
+                restarts += 1
+                continue
+            if rr.timed_out:
+                rr.bad = f"watchdog: scenario {last} did not finish within {timeout}s ({tag}, {flavor_of(binary)})"
+            else:
+                sig = -rr.rc if rr.rc < 0 else rr.rc
+                key, what = (crash_key(rr, last) if crash_key else
+                             (f"{ctx.prop}:crash:{'signal' if rr.rc < 0 else 'exit'}-{sig}",
+                              f"harness process died (rc={rr.rc}) in scenario {last}"))
+                rr.records.append(dict(t="viol", key=key, what=what,
+                                       detail=dict(scenario=last, seed=ctx.seed, argv=rr.argv, stderr=rr.err[-3000:])))
+            cur = last + 1
+            restarts += 1
+            continue
+        break
+    return results
